@@ -542,6 +542,9 @@ def getattr_(eng, base, attr, node):
                 fi = eng.repo.find_method(mod, cls, attr)
                 if fi is not None:
                     return Fun("method", recv=base, fi=fi)
+            if attr in ot.ext_methods:
+                h = ot.ext_methods[attr]
+                return Fun("special", handler=lambda e, a, k, n, _b=base, _h=h: _h(e, [_b] + list(a), k, n))
             if eng.spec_mode:
                 raise Unsupported("unknown field %s.%s" % (obj.cls, attr))
             raise Unsupported("attribute %s on object %s (not a declared field, constant or method)" % (attr, obj.cls))
